@@ -460,8 +460,32 @@ def gen_project(rng, kind="main", spelled=None):
         if not getattr(c, "is_exclude", False) and not c.includes:
             c.basepath = "alt" if c.basepath in (None, ".") else c.basepath + "/alt"
             c.root_rel = "alt/"
+    # rooted patterns that START with a wildcard: the prefix is the root itself and the whole
+    # tree below it is walked (crashed in Matcher.prefix before fix f4bd56d)
+    rootw = None
+    if not spelled and kind in ("main", "multi", "toml") and rng.random() < 0.14:
+        rootw = rng.choice(["star", "starstar", "l10n-star", "l10n-dot"])
+        tests = rng.choice([None, ["extra"]])
+        if rootw == "star":
+            top.rules.append(Rule("*.ftl", "l10n/{locale}/*.ftl", None, tests))
+        elif rootw == "starstar":
+            top.rules.append(Rule("**/en/rootw.ftl", "**/{locale}/rootw.ftl", None, tests))
+        elif rootw == "l10n-star":
+            top.rules.append(Rule("en-*.ftl", "*-{locale}.ftl", None, tests))
+        else:
+            top.rules.append(Rule("%s/en/*.ftl" % mods[0], "*.{locale}.ftl", None, tests))
     # tree ---------------------------------------------------------------------
     files = set()
+    if rootw == "star":
+        files |= {"top1.ftl", "top2.ftl"} | {"l10n/%s/top%d.ftl" % (l, rng.randint(1, 3)) for l in p.locales}
+    elif rootw == "starstar":
+        files |= {"%s/en/rootw.ftl" % mods[0], "deep/er/en/rootw.ftl"}
+        files |= {"%s/%s/rootw.ftl" % (rng.choice([mods[0], "deep/er", "l10n"]), l) for l in p.locales}
+    elif rootw == "l10n-star":
+        files |= {"en-a.ftl", "en-b.ftl"} | {"%s-%s.ftl" % (rng.choice("abc"), l) for l in p.locales}
+    elif rootw == "l10n-dot":
+        files |= {"%s.%s.ftl" % (rng.choice(["a", "foo-1", "zz"]), l) for l in p.locales + [FOREIGN]}
+    p.rootw = rootw
     roots = [""] if spelled else sorted({c.root_rel for c in p.cfgs.values()})
     for root in roots:
         for mod in mods + ["other"]:
@@ -564,7 +588,9 @@ def gen_quirk_dedup_env(rng):
 
 
 def gen_quirk_rooted_wildcard(rng):
-    """a rule of a TOML file (always rooted) whose pattern STARTS with a wildcard"""
+    """a rule of a TOML file (always rooted) whose pattern STARTS with a wildcard, alone in its
+    project: enumerated and paired like any other rule (prefix = root); this small stream keeps
+    the signature rooted-wildcard-start:matcher-table-raised of the crash repaired by f4bd56d"""
     p = Proj()
     p.kind = "rooted-wildcard-start"
     p.locales = ["de"]
@@ -1517,6 +1543,7 @@ def run(chk, runner_ok):
             impls += b
             descs += c
             chk.hist("include_shape", p.shape)
+            chk.hist("wildcard_first_rule", p.rootw or "-")
             chk.hist("built_by", "api" if i % 4 == 3 else "toml")
             chk.hist("toml_files", len(p.cfgs))
             chk.hist("flags", ",".join(sorted(p.flags)) or "-")
